@@ -83,6 +83,8 @@ func runC04(p *Prog, r *Report, tier string) {
 	checkSingleSection(p, r, "R-LOCK.whole-op", cpMutex, "pkg/collector", "addTemplate", "deleteTemplateWithConds", "getTemplateIEs")
 	checkTemplateDeleters(p, r)
 	checkInfoElementImmutable(p, r, "R-OWNER.info-element")
+	checkDecodeScopedState(p, r, touch)
+	checkBufferReads(p, r, "R-GATE.full-read")
 	// (1) owners
 	allowed := map[string]bool{"addTemplate": true, "deleteTemplateWithConds": true, "getTemplateIEs": true, "initCollectingProcess": true}
 	var mapFns []*ssa.Function
@@ -690,4 +692,84 @@ func builderErrorsInfeasible(p *Prog, dts *ssa.Function) (bool, string) {
 		return false, why
 	}
 	return true, ""
+}
+
+// checkDecodeScopedState: what a template or data set decodes to depends on the message, the registry and the template
+// store entry for ITS (observation domain, template id) - on no other per-process state. Any other field of the
+// collecting process read on the decode path (a cache of placeholder elements, a "last template" shortcut, ...) lets a
+// definition received under another id or in another observation domain influence this one.
+func checkDecodeScopedState(p *Prog, r *Report, storeFns map[*ssa.Function]bool) {
+	g := p.CallGraph()
+	var roots []*ssa.Function
+	for _, n := range []string{"decodeTemplateSet", "decodeDataSet"} {
+		if f := p.Fn("(*pkg/collector.CollectingProcess)." + n); f != nil {
+			roots = append(roots, f)
+		}
+	}
+	if len(roots) < 2 {
+		r.Undecided("R-KEY.scoped-state", "anchor: decodeTemplateSet / decodeDataSet", "pkg/collector/process.go", "not found")
+		return
+	}
+	allowed := map[string]string{
+		"decodingMode":     "configuration, constant after construction",
+		"numExtraElements": "configuration, constant after construction (capacity hint)",
+	}
+	n := 0
+	seen := map[*ssa.Function]bool{}
+	for _, root := range roots {
+		for f := range g.syncReach(root) {
+			if seen[f] || storeFns[f] || !keyInPkg(fnKey(f), "pkg/collector") {
+				continue
+			}
+			seen[f] = true
+			for _, a := range p.fieldAccesses(f, "pkg/collector.CollectingProcess") {
+				n++
+				why, ok := allowed[a.Field]
+				r.Check(ok, "R-KEY.scoped-state", fmt.Sprintf("%s: uses CollectingProcess.%s while decoding", fnKey(f), a.Field), p.instrPos(a.In), why,
+					"decoding depends on per-process state other than the configuration and the template store entry of this (observation domain, template id): a definition received earlier under another id / domain influences how this set is decoded", true)
+			}
+		}
+	}
+	r.Facts["R-KEY.scoped-state.accesses"] = n
+}
+
+// checkBufferReads: (*bytes.Buffer).Read returns fewer bytes than asked without an error when the buffer runs short;
+// on the decode path its count must be compared with the length that was asked for (util.Decode / Next-with-guard /
+// ReadByte are the complete-read idioms). Otherwise a set cut inside a field decodes from zero bytes instead of failing.
+func checkBufferReads(p *Prog, r *Report, rule string) {
+	scope, dp := decodeScope(p)
+	if dp == nil {
+		return
+	}
+	n := 0
+	for f := range scope {
+		if !keyInPkg(fnKey(f), "pkg/collector") {
+			continue
+		}
+		eachInstr(f, func(in ssa.Instruction) {
+			c, ok := in.(*ssa.Call)
+			if !ok {
+				return
+			}
+			name := calleeName(&c.Call)
+			if name != "(*bytes.Buffer).Read" && name != "iface:io.Reader.Read" {
+				return
+			}
+			n++
+			checked := false
+			for _, ex := range extractOf(c, 0) {
+				for _, ref := range refs(ex) {
+					if b, ok := ref.(*ssa.BinOp); ok {
+						switch b.Op {
+						case token.EQL, token.NEQ, token.LSS, token.GEQ, token.LEQ, token.GTR:
+							checked = true
+						}
+					}
+				}
+			}
+			r.Check(checked, rule, fmt.Sprintf("%s: %s #%d", fnKey(f), name, n), p.instrPos(in), "the byte count is compared with the length asked for",
+				"a short read is not an error for bytes.Buffer.Read: a set truncated inside this field is decoded from zero-filled bytes instead of being rejected (and, for a template set, replaces the stored template instead of invalidating it)", true)
+		})
+	}
+	r.Facts[rule+".sites"] = n
 }
